@@ -820,10 +820,59 @@ func checkC16(ctx *RunCtx) int {
 		}
 	})
 	runHands(ctx, rep, 16, ctx.N(3000, 100000), GenOpts{}, commonScenarios(), nil, func() Monitor { return &C16Mon{} })
+	// ante tables: many tables whose stacks lie around the ante (several seats short of it by different
+	// amounts), played up to the ante step only - side pots made of antes alone
+	runCases(ctx, rep, 161, ctx.N(40000, 600000), func(i int, r *rand.Rand, local *Report) {
+		c := genCfg(r, GenOpts{noReuse: true})
+		c.Noise, c.Hostile = false, false
+		c.Ante = []int64{2, 3, 4, 5, 6, 10}[r.Intn(6)]
+		for k := range c.Banks {
+			if r.Intn(4) != 0 {
+				c.Banks[k] = 1 + int64(r.Intn(int(c.Ante)+1))
+			}
+		}
+		h := &Hand{Prop: "C16", C: c, R: r, Rep: local, Seed: ctx.Seed, CaseIdx: i}
+		defer func() {
+			if e := recover(); e != nil {
+				h.Fail("C16/panic", "source=engine", fmt.Sprintf("the engine panicked on an ante table: %v", e))
+			}
+		}()
+		g := newGameFor(c)
+		if g.Start() != nil {
+			return
+		}
+		copy(g.GetState().Meta.Deck, c.Deck)
+		if g.ReadyForAll() != nil || g.GetState().Status.CurrentEvent != "AnteRequested" {
+			return
+		}
+		h.Trace = append(h.Trace, TraceStep{Op: Op{Name: "ready", Seat: -1}}, TraceStep{Op: Op{Name: "ante", Seat: -1}})
+		if g.PayAnte() != nil {
+			return
+		}
+		post := g.GetState()
+		n := len(post.Players)
+		contrib, fold := make([]int64, n), make([]bool, n)
+		short := 0
+		for _, p := range post.Players {
+			contrib[p.Idx] = p.Pot + p.Wager
+			fold[p.Idx] = p.Fold
+			if contrib[p.Idx] < c.Ante {
+				short++
+			}
+		}
+		local.Inc("oracle_evaluations")
+		local.Inc("ante_tables")
+		if short >= 2 {
+			local.Inc("class_ante_table_with_two_or_more_short_seats")
+		}
+		if rule, msg := checkPots(contrib, fold, post.Status.Pots); rule != "" {
+			h.Fail(rule, "source=engine", "after antes (ante table): "+msg)
+		}
+	})
 	return finish(ctx, rep, &CheckSpec{
 		Prop: "C16", Level: "exploration", EvalCounter: "oracle_evaluations", NonTrivSet: "nontrivial",
-		Rule:        "pot.LevelList fed contribution/fold vectors directly (small domain enumerated completely in thorough: n<=6, contributions in {0,1,2,3,5}, all fold flags; random n<=10 with zero/equal/large values, every vector inserted in a random order) and the pots the engine publishes after antes, at every RoundClosed and at GameClosed; compared with an independent partition: strictly increasing levels, per-band totals, per-pot amount, live seats listed iff they reached the level, strictly shrinking live sets, sum = all chips. Non-trivial = distinct (rank pattern of contributions x fold flags) with >= 2 pots" + engineWorkloadNote + "",
-		Required:    []string{"multi_pot_vectors", "multi_pot_publications", "class_zero_contribution", "class_equal_contributions", "published_RoundClosed", "published_GameClosed", "published_AntePaid"},
+		Rule:        "pot.LevelList fed contribution/fold vectors directly (small domain enumerated completely in thorough: n<=6, contributions in {0,1,2,3,5}, all fold flags; random n<=10 with zero/equal/large values, every vector inserted in a random order) and the pots the engine publishes after antes, at every RoundClosed and at GameClosed, plus a block of tables whose stacks lie around the ante, played up to the ante step (side pots made of antes alone); compared with an independent partition: strictly increasing levels, per-band totals, per-pot amount, live seats listed iff they reached the level, strictly shrinking live sets, sum = all chips. Non-trivial = distinct (rank pattern of contributions x fold flags) with >= 2 pots" + engineWorkloadNote + "",
+		Required:    []string{"multi_pot_vectors", "multi_pot_publications", "class_zero_contribution", "class_equal_contributions", "published_RoundClosed", "published_GameClosed", "published_AntePaid", "class_ante_table_with_two_or_more_short_seats"},
 		Assumptions: []string{"the engine lists folded seats in Contributors with their whole contribution; 'eligible' is read as contributors minus folded and nothing is asserted about folded entries"},
 	})
 }
